@@ -851,6 +851,88 @@ def locktime_cases(rng, n):
         yield spend(tx, spk, 0, flags, "locktime.%s" % ("cltv" if op == 0xb1 else "csv"))
 
 
+def locktime_eval_cases(rng, n):
+    """single-script evaluation of CLTV / CSV with a satisfiable context: the operand must stay on the stack unchanged"""
+    encs = [b"\x01", b"\x01\x00", b"\x01\x00\x00\x00", b"\x01\x00\x00\x00\x00", b"", b"\x00", b"\x80", b"\x00\x80", b"\x05\x00", b"\x10\x27",
+            b"\x10\x27\x00", b"\xff\xff\x00", b"\xff\xff\x00\x00\x00", b"\x00\x65\xcd\x1d", b"\x00\x65\xcd\x1d\x00", b"\x05\x00\x40", b"\x05\x00\x40\x00",
+            b"\x00\x00\x00\x80\x00", b"\x05\x00\x00\x80\x00"]
+    for _ in range(n):
+        op = rng.choice([0xb1, 0xb2])
+        enc = rng.choice(encs)
+        flags = rng.choice([RS.CHECKLOCKTIMEVERIFY | RS.CHECKSEQUENCEVERIFY, RS.CHECKLOCKTIMEVERIFY | RS.CHECKSEQUENCEVERIFY | RS.MINIMALDATA, 0])
+        tx = CT.credit_spend(b"", b"\x51", [], 0, version=rng.choice([2, 2, 1]), lock_time=rng.choice([10000, 500000001, 0xffffffff, 1]),
+                             sequence=rng.choice([0xfffffffe, 10000, (1 << 22) | 7, 0]))
+        script = (b"" if rng.random() < 0.5 else push(enc)) + bytes([op]) + rng.choice([b"", b"\x82", b"\x76", b"\x61"])
+        stack = [enc] if script[0] == op else []
+        yield eval_case(rng, script, stack, flags, rng.choice([0, 1]), "locktime.eval", tx=tx)
+
+
+def cond_tree_cases(rng, n):
+    """random conditional structures: nesting, multiple ELSEs, dead branches holding anything, MINIMALIF operand forms"""
+    conds = [b"", b"\x01", b"\x00", b"\x80", b"\x02", b"\x01\x00", b"\x00\x00", b"\x00\x80", b"\x81", b"\x01\x01"]
+    fillers = [b"\x61", b"\x51", b"\x00", b"\x75", b"\x76", b"\x50", b"\x62", b"\x65", b"\x66", b"\x6a", b"\x7e", b"\x8d", b"\xba", b"\xff",
+               b"\x02\x01", b"\x4c", b"\x4d\x01", b"\x09" + b"\x01" * 9, b"\x4d\x09\x02" + b"\x01" * 521, b"\xb1", b"\xb2", b"\xab", b"\x6b", b"\x6c"]
+
+    def block(depth):
+        parts = []
+        for _ in range(rng.randrange(0, 4)):
+            r = rng.random()
+            if r < 0.35 and depth < 6:
+                parts.append(push(rng.choice(conds)) if rng.random() < 0.85 else b"")
+                parts.append(rng.choice([b"\x63", b"\x64"]))
+                parts.append(block(depth + 1))
+                for _ in range(rng.choice([0, 1, 1, 2, 3])):
+                    parts.append(b"\x67")
+                    parts.append(block(depth + 1))
+                if rng.random() < 0.93:
+                    parts.append(b"\x68")
+            elif r < 0.5:
+                parts.append(rng.choice([b"\x67", b"\x68"]) if rng.random() < 0.2 else b"\x61")
+            else:
+                f = rng.choice(fillers)
+                parts.append(f if rng.random() < 0.6 else rng.choice([b"\x61", b"\x51", b"\x00"]))
+        return b"".join(parts)
+    for _ in range(n):
+        script = block(0) + rng.choice([b"", b"\x51", b"\x74"])
+        flags = rng.choice([0, RS.MINIMALIF, RS.MINIMALIF | RS.MINIMALDATA, ALL_FLAGS, RS.MINIMALDATA])
+        sv = rng.choice([0, 1, 1])
+        stack = [rng.choice(conds) for _ in range(rng.randrange(0, 3))]
+        if rng.random() < 0.7:
+            yield eval_case(rng, script, stack, flags, sv, "cond.eval")
+        else:
+            # the same through a real P2WSH / bare spend
+            if rng.random() < 0.5:
+                yield simple_spend(rng, b"", b"\x00\x20" + sha256(script), stack + [script], fix_flags(flags | RS.WITNESS), "cond.p2wsh")
+            else:
+                yield simple_spend(rng, b"".join(push(x) for x in stack), script, [], fix_flags(flags & ~RS.CLEANSTACK), "cond.bare")
+
+
+def arith_chain_cases(rng, n):
+    """chains of numeric opcodes over boundary integers: 5-byte results may be produced but not consumed"""
+    vals = [0, 1, -1, 2, 127, 128, 255, 256, 32767, 32768, (1 << 31) - 1, -((1 << 31) - 1), (1 << 31) - 2, 1 << 30, -(1 << 30), 16, 17]
+    unary = [0x8b, 0x8c, 0x8f, 0x90, 0x91, 0x92]
+    binary = [0x93, 0x94, 0x9a, 0x9b, 0x9c, 0x9e, 0x9f, 0xa0, 0xa1, 0xa2, 0xa3, 0xa4]
+    for _ in range(n):
+        parts = [num(rng.choice(vals)), num(rng.choice(vals))]
+        depth = 2
+        for _ in range(rng.randrange(1, 7)):
+            r = rng.random()
+            if r < 0.3:
+                parts.append(num(rng.choice(vals)))
+                depth += 1
+            elif r < 0.55 and depth >= 1:
+                parts.append(bytes([rng.choice(unary)]))
+            elif r < 0.9 and depth >= 2:
+                parts.append(bytes([rng.choice(binary)]))
+                depth -= 1
+            elif depth >= 3:
+                parts.append(b"\xa5")
+                depth -= 2
+            else:
+                parts.append(bytes([rng.choice([0x76, 0x7c, 0x78, 0x82, 0x73])]))
+        yield eval_case(rng, b"".join(parts), [], rng.choice([0, RS.MINIMALDATA, ALL_FLAGS]), rng.choice([0, 1]), "arith.chain")
+
+
 def random_scripts(rng, n):
     for _ in range(n):
         ln = rng.choice([1, 2, 3, 5, 8, 13, 30])
